@@ -144,7 +144,12 @@ def _main(args):
     procs = int(os.environ.get('VERIF_PROCS', '0')) or (16 if tier == 'thorough' else 8)
 
     if args.replay:
-        return replay(pid, eng, args.replay, known)
+        try:
+            rname = json.load(open(args.replay)).get('engine') or ent['engine']
+        except (OSError, ValueError):
+            rname = ent['engine']
+        return replay(pid, _engine(rname), args.replay, known)
+    extra_engs = [_engine(n) for n in ent.get('extra_engines', [])]
 
     # ---- tie 1: extractor -------------------------------------------------------------
     ex = extract.run()
@@ -162,7 +167,7 @@ def _main(args):
     if theorems and bp['ok']:
         audit, audit_text = fw.lean_audit(pid, proof_targets, theorems)
     forb = fw.forbidden_grep(model_targets + proof_targets,
-                             [os.path.join(fw.LEAN_DIR, 'drivers', eng.DRIVER + '.lean')])
+                             [os.path.join(fw.LEAN_DIR, 'drivers', e.DRIVER + '.lean') for e in [eng] + extra_engs])
     broken = []          # proof obligations that no longer check
     discharged = 0
     for t in theorems:
@@ -205,7 +210,36 @@ def _main(args):
         for h in r['hits']:
             h = dict(h)
             h.setdefault('case', r['case'])
+            h['engine'] = eng.NAME
             hits.append(h)
+    # ---- further engines deciding the same property on other layers of the code (e.g. the real
+    #      Loader / Master for the scheduler properties): same pid, own generator, driver and monitors
+    extra_stats = {}
+    for xe in extra_engs:
+        xcorpus = []
+        for p in sorted(glob.glob(os.path.join(fw.CORPUS_DIR, xe.NAME, '*.json'))):
+            try:
+                c = json.load(open(p))
+                if pid in c.get('properties', []):
+                    xcorpus.append(c['case'])
+            except (OSError, ValueError, KeyError):
+                pass
+        xn = max(50, (args.cases or xe.CASES[tier]) // 2)
+        xres = run_cases(xe.NAME, pid, tier, seed, xn, xcorpus, procs)
+        xdis, xcmp = drive_and_diff(xe, xres) if model_ok else ([], 0)
+        for d in xdis:
+            d['engine'] = xe.NAME
+        disagreements = disagreements + xdis
+        compared += xcmp
+        errors = errors + [r for r in xres if r['error']]
+        for r in xres:
+            for h in r['hits']:
+                h = dict(h)
+                h.setdefault('case', r['case'])
+                h['engine'] = xe.NAME
+                hits.append(h)
+        extra_stats[xe.NAME] = {'cases': len(xres), 'compared': xcmp, 'disagreements': len(xdis),
+                                'nontrivial': len([r for r in xres if r['nontrivial'] and not r['error']])}
     new_hits = [h for h in hits if not match_known(h, known)]
     known_hit_count = len(hits) - len(new_hits)
 
@@ -229,7 +263,7 @@ def _main(args):
     impl_errors_unexpected = [r for r in errors]
     if new_hits:
         h = new_hits[0]
-        h['case'] = shrink_hit(eng, pid, h)
+        h['case'] = shrink_hit(_engine(h.get('engine', eng.NAME)), pid, h)
         violation = {'kind': 'failing-input', 'hit': h}
     elif broken or disagreements or not model_ok or impl_errors_unexpected:
         # search harder on the real code with the monitors only
@@ -280,6 +314,7 @@ def _main(args):
         'extractor_changed': ex['changed'], 'extractor_problems': ex['problems'],
         'model_build_ok': bm['ok'], 'proof_build_ok': bp['ok'], 'broken_obligations': broken[:10],
         'corpus_cases': len(corpus),
+        'extra_engines': extra_stats,
     }
     doc = {'property_id': pid, 'tier': tier, 'seed': seed, 'level': level, 'coverage': cov,
            'assumptions': ent.get('assumptions', []), 'wall_s': round(time.time() - t0, 2),
@@ -294,6 +329,7 @@ def _main(args):
         rdoc = {'property': pid, 'kind': violation['kind'], 'engine': eng.NAME, 'seed': seed, 'tier': tier}
         if violation['kind'] == 'failing-input':
             h = violation['hit']
+            rdoc['engine'] = h.get('engine', eng.NAME)
             rdoc.update({'case': h.get('case'), 'monitor': {k: h.get(k) for k in ('clause', 'call_site', 'detail')}})
         else:
             rdoc['broken'] = {
@@ -305,6 +341,7 @@ def _main(args):
             }
             if disagreements:
                 rdoc['case'] = disagreements[0]['case']
+                rdoc['engine'] = disagreements[0].get('engine', eng.NAME)
         path = fw.write_replay(pid, seed, rdoc)
         tail = '' if violation['kind'] == 'failing-input' else ' no-failing-input-found'
         print('VIOLATION property=%s replay=%s%s' % (pid, path, tail))
